@@ -11,5 +11,5 @@ def calc_ast_hash(a: ast.AST) -> str:
     """
 
     b = bytearray()
-    b.extend(map(ord, ast.dump(a)))
+    b.extend(ast.dump(a).encode("utf-8"))
     return hashlib.md5(b).hexdigest()
